@@ -11,6 +11,7 @@ CONSTANTS
  DevKeepBrokers = FALSE
  DevIdFilterAll = FALSE
  DevDropErrTopics = FALSE
+ DevStaleIdCache = FALSE
 INIT TInit
 NEXT TNext
 POSTCONDITION Reached
